@@ -423,16 +423,3 @@ def copy_state(src, dst):
     if os.path.exists(dst):
         shutil.rmtree(dst)
     shutil.copytree(src, dst, symlinks=True)
-
-
-def run_crashing(run, path, k, when="before", partial=None):
-    """Run the operation through the seam with a crash at mutating op k.
-    -> (fired, controller)."""
-    url = ft.url(path)
-    with ft.session(mode="crash", crash_at=k, crash_when=when,
-                    partial=partial) as c:
-        try:
-            run(url)
-        except ft.Crash:
-            pass
-    return c.fired, c
